@@ -106,6 +106,28 @@ func (fr *Frame) callInner(in ssa.Instruction, cc *ssa.CallCommon, res ssa.Value
 		rt = cc.Signature().Results().At(0).Type()
 	}
 	if b, ok := cc.Value.(*ssa.Builtin); ok {
+		// builtins can be guarded too (guard[append] ...): arguments are callee_arg0, ...
+		if !fr.inlined && fr.contract != nil {
+			for _, g := range fr.contract.Guards {
+				if g.Name != b.Name() {
+					continue
+				}
+				env := fr.newEnv()
+				env.contract = fr.contract
+				env.at = fr.curBlock
+				for i, a := range cc.Args {
+					env.vars[fmt.Sprintf("callee_arg%d", i)] = fr.val(a)
+				}
+				fr.x.guardsSeen[g.Name] = true
+				detail := b.Name()
+				if g.Label != "" {
+					detail += ":" + g.Label
+				}
+				fr.x.onlyProps = g.Only
+				fr.oblige("guard", detail, fr.evalGuard(g, env), g.Src)
+				fr.x.onlyProps = nil
+			}
+		}
 		fr.builtin(b, cc, res)
 		return
 	}
@@ -156,7 +178,7 @@ func (fr *Frame) callInner(in ssa.Instruction, cc *ssa.CallCommon, res ssa.Value
 				detail += ":" + g.Label
 			}
 			fr.x.onlyProps = g.Only
-			fr.oblige("guard", detail, fr.evalBool(g.Expr, env), g.Src)
+			fr.oblige("guard", detail, fr.evalGuard(g, env), g.Src)
 			fr.x.onlyProps = nil
 		}
 		// ghost: remember that a function of this name has been called (spec: called(name))
@@ -955,4 +977,21 @@ func (fr *Frame) copySlice(dst, src *SVal) *SVal {
 		}
 	}
 	return leaf(intType, n)
+}
+
+// evalGuard evaluates a guard/check expression; if it no longer binds (it names the result of a
+// call that is gone, a local that disappeared, ...) the obligation is not dropped: it becomes an
+// obligation that cannot be discharged, and the reason is recorded.
+func (fr *Frame) evalGuard(g *Clause, env *SpecEnv) (cond string) {
+	defer func() {
+		if r := recover(); r != nil {
+			sf, ok := r.(specFail)
+			if !ok {
+				panic(r)
+			}
+			fr.x.bindFail["guard of "+fr.x.fnKey+" does not bind: "+sf.msg+" ("+g.Src+")"] = true
+			cond = "false"
+		}
+	}()
+	return fr.evalBool(g.Expr, env)
 }
